@@ -19,6 +19,8 @@ import (
 	yaml "gopkg.in/yaml.v2"
 )
 
+type namedKey string
+
 type plainStruct struct {
 	A    int
 	B    string
@@ -63,14 +65,17 @@ func weirdEnv() map[string]any {
 		// collections that hold pointers, some of them nil
 		"ptrs": []*int{&n, nilp, &n}, "pstrs": []*string{&s, nil}, "pstructs": []*plainStruct{&st, nils}, "anyptrs": []any{&n, nilp, nils, []*int{nilp}},
 		"mptr": map[string]*int{"a": &n, "z": nil}, "parr": &[]any{1, nil}, "pmap": &map[string]any{"k": nilp},
+		// maps keyed by a named string type; an ordered map with keys that == cannot compare
+		"mnk": map[namedKey]any{"k": 1, "size": 2}, "amnk": []any{map[namedKey]any{"k": 2}, map[namedKey]any{"k": 1}, map[namedKey]int{"k": 0}},
+		"msw": yaml.MapSlice{{Key: []any{1}, Value: "v"}, {Key: map[string]any{"k": 1}, Value: 2}, {Key: "k", Value: 3}}, "one": []any{1},
 	}
 }
 
 var fuzzNames = []string{"ptrs", "pstrs", "pstructs", "anyptrs", "mptr", "parr", "pmap", "ptrs | reverse", "anyptrs[3]", "mptr.z", "pmap.k", "st", "pst", "nilp", "nils", "pn", "ps", "tm", "by", "ms", "mik", "mif", "af", "u8", "i64", "u64", "f32", "big", "neg0", "dr", "drnil", "drdr",
 	"arr", "strs", "ints", "m", "e", "s", "u", "n", "z", "f", "t", "nl", "long", "nested", "undefined", "forloop", "st.A", "st.C", "pst.D.k", "st.E.B", "st.nm", "st.Method",
 	"st.priv", "ms.k", "ms[2]", "mik[1]", "arr[4][0]", "arr[-1]", "arr[99]", "nested.a.b[0].c", "m.size", "m.first", "arr.first", "arr.last.x", "s.size", "n.size", "by.size",
-	"tm.Year", "dr.A", "drdr.first", "u64", "pn", "(1..n)", "(n..1)", "(1..3)", "(f..t)", "(1..100000)"}
-var fuzzLits = []string{"1", "-1", "0", "2.5", "99999999999999999999", "1.5e3", "'a'", "\"b\"", "''", "nil", "true", "false", "empty", "blank", "-0", "00012", "1..2", "'%Y'", "'$1'", "100000", "-99999999999"}
+	"tm.Year", "dr.A", "drdr.first", "u64", "pn", "mnk", "mnk.k", "mnk['k']", "amnk", "amnk | sort: 'k'", "amnk | map: 'k'", "msw", "msw[one]", "msw[m]", "msw.k", "one", "(1..n)", "(n..1)", "(1..3)", "(f..t)", "(1..100000)"}
+var fuzzLits = []string{"'k'", "1", "-1", "0", "2.5", "99999999999999999999", "1.5e3", "'a'", "\"b\"", "''", "nil", "true", "false", "empty", "blank", "-0", "00012", "1..2", "'%Y'", "'$1'", "100000", "-99999999999"}
 var fuzzFilterNames = []string{"compact", "reverse", "first", "last", "uniq", "abs", "ceil", "floor", "size", "escape", "newline_to_br", "strip_html", "strip_newlines",
 	"strip", "lstrip", "rstrip", "url_encode", "url_decode", "json", "inspect", "type", "default", "concat", "join", "map", "sort", "sort_natural", "modulo", "minus",
 	"plus", "times", "divided_by", "round", "append", "prepend", "remove", "remove_first", "split", "date", "upcase", "downcase", "capitalize", "escape_once", "replace",
